@@ -861,3 +861,189 @@ func paramNameAt(fn *ssa.Function, i int) string {
 	}
 	return "<none>"
 }
+
+// formatDiscipline: every precondition "the format string is program text" (C03) and every claim
+// about what a layer prints (C09) rests on format strings being program text. Structural rule
+// (the analogue of vet's "non-constant format string"): at every call in the module's non-test
+// code whose callee has a string parameter named "format", the argument is a constant or the
+// caller's own parameter named "format". Obligations <func>#formatarg.N.
+func (w *World) formatDiscipline() []*FuncResult {
+	var out []*FuncResult
+	var fns []*ssa.Function
+	for fn := range w.AllFuncs {
+		pkg := fn.Pkg
+		if pkg == nil && fn.Parent() != nil {
+			pkg = fn.Parent().Pkg
+		}
+		if pkg == nil || !w.InModule(pkg.Pkg) || w.isGenerated(fn) || len(fn.Blocks) == 0 || fn.Synthetic != "" {
+			continue
+		}
+		p := pkg.Pkg.Path()
+		if strings.Contains(p, "testutils") || strings.Contains(p, "fmttests") {
+			continue
+		}
+		if pos := w.Fset.Position(fn.Pos()); strings.HasSuffix(pos.Filename, "_test.go") || pos.Filename == "" {
+			continue
+		}
+		fns = append(fns, fn)
+	}
+	sort.Slice(fns, func(i, j int) bool { return fns[i].String() < fns[j].String() })
+	for _, fn := range fns {
+		name := w.funcName(fn)
+		var obls []*Obligation
+		n := 0
+		var blocks []*ssa.BasicBlock
+		blocks = append(blocks, fn.Blocks...)
+		sort.SliceStable(blocks, func(i, j int) bool { return blocks[i].Index < blocks[j].Index })
+		for _, b := range blocks {
+			for _, ins := range b.Instrs {
+				ci, ok := ins.(ssa.CallInstruction)
+				if !ok {
+					continue
+				}
+				cc := ci.Common()
+				sig := cc.Signature()
+				if sig == nil {
+					continue
+				}
+				off := 0
+				if cc.IsInvoke() {
+					off = 0 // Args exclude the receiver for invoke-mode calls
+				} else if sig.Recv() != nil {
+					off = 1
+				}
+				for pi := 0; pi < sig.Params().Len(); pi++ {
+					prm := sig.Params().At(pi)
+					if prm.Name() != "format" || !isString(prm.Type()) {
+						continue
+					}
+					ai := pi + off
+					if ai >= len(cc.Args) {
+						continue
+					}
+					v := cc.Args[ai]
+					for {
+						if ct, isCT := v.(*ssa.ChangeType); isCT {
+							v = ct.X
+							continue
+						}
+						break
+					}
+					ok2, why := false, ""
+					switch y := v.(type) {
+					case *ssa.Const:
+						ok2 = true
+					case *ssa.Parameter:
+						ok2 = y.Name() == "format"
+						if !ok2 {
+							why = "parameter " + y.Name() + " (not a format parameter) is used as a format string"
+						}
+					case *ssa.Extract:
+						// redact.MakeFormat rebuilds the caller's own "%[flags][width][.prec]verb" directive
+						if c, isCall := y.Tuple.(*ssa.Call); isCall {
+							if sc := c.Call.StaticCallee(); sc != nil && sc.Name() == "MakeFormat" && sc.Pkg != nil && strings.HasSuffix(sc.Pkg.Pkg.Path(), "cockroachdb/redact") {
+								ok2 = true
+							}
+						}
+						if !ok2 {
+							why = "a computed value is used as a format string"
+						}
+					default:
+						why = fmt.Sprintf("a computed value (%T) is used as a format string", v)
+					}
+					n++
+					callee := "a function value"
+					if sc := cc.StaticCallee(); sc != nil {
+						callee = w.funcName(sc)
+					} else if cc.IsInvoke() {
+						callee = w.shortType(cc.Value.Type()) + "." + cc.Method.Name()
+					}
+					o := &Obligation{Name: fmt.Sprintf("%s#formatarg.%d", name, n), Func: name, Kind: "post", Props: []string{"C03", "C09"},
+						Text: "the format string handed to " + callee + " is program text: a constant or the caller's own format parameter (structural)", Pos: w.Fset.Position(ins.Pos()).String()}
+					q := &Query{Goal: tTrue, Status: "trivial"}
+					if !ok2 {
+						q.Goal, q.Status = tFalse, ""
+						q.Output = why
+						o.Text += " -- " + why
+					}
+					o.Queries = []*Query{q}
+					obls = append(obls, o)
+				}
+			}
+		}
+		if len(obls) > 0 {
+			out = append(out, &FuncResult{Name: name, Fn: fn, Obls: obls})
+		}
+	}
+	return out
+}
+
+// globalStateCalls (C18): a read-only observer may not hand the address of package-level state
+// to code outside the module that can write through it (atomic.Value.Store, sync.Map.Store,
+// sync.Pool.Put, ...): such a call is a write to state shared by all goroutines even when it is
+// free of data races. Structural obligations <func>#gframe.N for every call of an external
+// function whose receiver / pointer argument is rooted in a package variable; only a short list
+// of read-only or synchronisation-only methods passes.
+func (w *World) globalStateCalls() []*FuncResult {
+	readOnly := map[string]bool{"Load": true, "RLock": true, "RUnlock": true, "Lock": true, "Unlock": true, "Len": true, "String": true, "Range": true, "Do": true}
+	var out []*FuncResult
+	for _, fn := range w.frameSweepFuncs() {
+		name := w.funcName(fn)
+		var obls []*Obligation
+		n := 0
+		var blocks []*ssa.BasicBlock
+		blocks = append(blocks, fn.Blocks...)
+		sort.SliceStable(blocks, func(i, j int) bool { return blocks[i].Index < blocks[j].Index })
+		for _, b := range blocks {
+			for _, ins := range b.Instrs {
+				ci, ok := ins.(ssa.CallInstruction)
+				if !ok {
+					continue
+				}
+				cc := ci.Common()
+				callee := cc.StaticCallee()
+				if callee == nil || cc.IsInvoke() || (callee.Pkg != nil && w.InModule(callee.Pkg.Pkg)) {
+					continue
+				}
+				for _, a := range cc.Args {
+					if _, isPtr := a.Type().Underlying().(*types.Pointer); !isPtr {
+						continue
+					}
+					v := a
+					var g *ssa.Global
+					for i := 0; i < 10 && g == nil; i++ {
+						switch y := v.(type) {
+						case *ssa.Global:
+							g = y
+						case *ssa.FieldAddr:
+							v = y.X
+						case *ssa.IndexAddr:
+							v = y.X
+						default:
+							i = 10
+						}
+					}
+					if g == nil || g.Pkg == nil || !w.InModule(g.Pkg.Pkg) {
+						continue
+					}
+					n++
+					ok2 := readOnly[callee.Name()]
+					o := &Obligation{Name: fmt.Sprintf("%s#gframe.%d", name, n), Func: name, Kind: "frame", Props: []string{"C18"},
+						Text: "read-only frame (structural rule): " + callee.String() + " is handed the address of package variable " + g.Name() + " and does not write through it", Pos: w.Fset.Position(ins.Pos()).String()}
+					q := &Query{Goal: tTrue, Status: "trivial"}
+					if !ok2 {
+						q.Goal, q.Status = tFalse, ""
+						q.Output = "external callee may write package-level state"
+						o.Text += " -- not on the list of read-only / synchronisation-only methods"
+					}
+					o.Queries = []*Query{q}
+					obls = append(obls, o)
+				}
+			}
+		}
+		if len(obls) > 0 {
+			out = append(out, &FuncResult{Name: name, Fn: fn, Obls: obls})
+		}
+	}
+	return out
+}
